@@ -1265,7 +1265,7 @@ def SIS_pair_based(G, tau, gamma, rho = None, nodelist = None,
     elif XX0.shape != (N,N):
         raise EoN.EoNError("incompatible lengths for XX0 and Y0")
         
-    A = nx.adjacency_matrix(G, nodelist=list(nodelist)).toarray()
+    A = nx.adjacency_matrix(G, nodelist=list(nodelist), weight=None).toarray()
     XY0 = XY0*A  #in principle the equations should still work for pairs not
     XX0 = XX0*A  #in an edge, but this led to an error with odeint.  
                  #Multiplying by A restricts attention just to present edges.
@@ -1569,7 +1569,7 @@ def SIR_pair_based(G, tau, gamma, rho = None, nodelist=None, Y0=None,
     else:
         if XX0.shape != (N,N):
             raise EoN.EoNError("incompatible lengths for XX0 and Y0")
-    A = nx.adjacency_matrix(G, nodelist=list(nodelist)).toarray()
+    A = nx.adjacency_matrix(G, nodelist=list(nodelist), weight=None).toarray()
     XY0 = XY0*A  #in principle the equations should still work for pairs not
     XX0 = XX0*A  #in an edge, but this led to the error with odeint.  
                  #Multiplying by A restricts attention just to present edges.
